@@ -259,3 +259,24 @@ MUTANTS += [
     {"id": "C18-one-char-nested-match-accepts-longer", "prop": "C18", "expect": "NAME-ROUNDTRIP/ANCHOR/KeyName::from_str",
      "edits": [(K, _ONE_CHAR_OLD, _one_char_nested(second="_"))]},
 ]
+
+
+# ---- robustness round M8: the modifier helper declared INSIDE Key::from_str (nested fn item; seeded benign C18-P)
+_FROM_STR_HEAD = "        let mut key_name = None;\n"
+
+
+def _nested(h):
+    h = h[:-len(_CHORD_STRUCT)].rstrip("\n")
+    return "".join("        " + l + "\n" if l else "\n" for l in h.split("\n")) + "\n" + _FROM_STR_HEAD
+
+
+MUTANTS += [
+    {"id": "C18-benign-modifier-helper-nested-let-else", "prop": "C18", "benign": True,
+     "edits": [(K, _MODS_OLD + _NAME_TAIL, _LETELSE_LOOP), (K, _FROM_STR_HEAD, _nested(_helper_let()))]},
+    {"id": "C18-benign-modifier-helper-nested-match", "prop": "C18", "benign": True,
+     "edits": [(K, _MODS_OLD, _MATCH_CALL), (K, _FROM_STR_HEAD, _nested(_helper(False)))]},
+    {"id": "C18-modifier-helper-nested-alt-sets-ctrl", "prop": "C18", "expect": "MOD-ROUNDTRIP",
+     "edits": [(K, _MODS_OLD + _NAME_TAIL, _LETELSE_LOOP), (K, _FROM_STR_HEAD, _nested(_helper_let(alt="KeyMod::CTRL")))]},
+    {"id": "C18-modifier-helper-nested-shadows-key-name", "prop": "C18", "expect": "key-name-is-modifier",
+     "edits": [(K, _MODS_OLD, _MATCH_CALL), (K, _FROM_STR_HEAD, _nested(_helper(True, extra='        "tab" => KeyMod::CTRL,\n')))]},
+]
